@@ -38,6 +38,10 @@ Inductive case :=
 (* same call, but only the pixel size of the result is compared (float-inexact offsets) *)
 | COutRes (s : src) (dst dunits : Z) (B : bbox) (fit : Q) (rq : res_req) (shape : option shape_req)
        (tight : bool) (anc : anchor) (tol : Q) (rr : rr_mode) (expect : res (option (Q * Q)))
+(* distance handed to Geometry.buffer by gbox.footprint(crs, buffer=b) for a grid of resolution (rx, ry) *)
+| CBuffer (b rx ry expect : Q)
+(* npoints handed to gbox.footprint by compute_output_geobox for a grid of shape (ny, nx) *)
+| CNpoints (ny nx expect : Z)
 (* norm_crs('utm*', ctx) with the candidate list / overlaps / zone letters observed *)
 | CUtm (rq : utm_req) (cands : list (Z * Q)) (area_big : bool) (letters : list (Z * zone_letter))
        (expect : res Z).
@@ -57,5 +61,7 @@ Definition check (c : case) : bool :=
          | Ok (ONew g) => Ok (Some (aa (g_aff g), ae (g_aff g)))
          | Err x => Err x
          end) e
+  | CBuffer b rx ry e => Qeqb (footprint_buffer b (rx, ry)) e
+  | CNpoints ny nx e => footprint_npoints ny nx =? e
   | CUtm rq cands big letters e => res_eqb Z.eqb (norm_crs_utm rq cands big (letter_of letters)) e
   end.
